@@ -158,6 +158,19 @@ def write_worker(lines):
             out['viol'].append(('smfwrite/save-raises', {'kind': 'file', 'row': [ftype, tpb, storable, tracks, norm, canon]},
                                 'save raised %r' % (e,)))
             continue
+        # the immutable twins of the messages are written byte for byte like the messages, also
+        # after a caller has overwritten the lists their bytes() returned
+        try:
+            from mido.frozen import freeze_message
+            fz = c07.mido_file_with(ftype, tpb, [[freeze_message(m) for m in t] for t in mid.tracks])
+            for t in fz.tracks:
+                for m in t:
+                    core.scribble(m.bytes())
+            if smf.save_bytes(fz) != data:
+                out['viol'].append(('smfwrite/frozen-written-differently', {'kind': 'file', 'row': [ftype, tpb, storable, tracks, norm, canon]},
+                                    'the same file holding frozen messages is written as other bytes'))
+        except Exception as e:
+            out['viol'].append(('smfwrite/frozen-save-raises', {'kind': 'file', 'row': [ftype, tpb, storable, tracks, norm, canon]}, repr(e)))
         out['n'] += 1
         out['recs'].append({'type': ftype, 'tpb': tpb, 'tracks': [smf.abstract_track(t) for t in mid.tracks],
                             'bytes': list(data), 'src': [ftype, tpb, tracks]})
